@@ -59,6 +59,12 @@ checks.update({
    note="M5 (harness scope model) trusted; cases the statement leaves open (same-block local/const clash, parameter redeclared in the function's top block, circular consts) are only required not to crash.",
    technique="bounded exhaustive enumeration of scope trees against a reference scope model, plus differential compilation under renaming"),
 })
+checks.update({
+ "C14": dict(level=MC, ref="DESIGN.md §4 C14",
+   text="(a) exhaustive: all 256 mask bytes under every flag-definition set (8 naming schemes incl. ambiguous ones x default-on subsets) are raised to label text, each printed label is parsed by the M8 label model, and the text is recompiled to the same mask; (b) switch statements of length 2-8 with every hole pattern under 12 labels and 6 default-on sets are lowered and, per difficulty, exactly one emitted copy must apply with that difficulty's values and the label's aux bits; mismatched lengths must be rejected; (c) hand-built runs of 2-4 instructions over a mask set are raised with switch recognition on/off and recompiled to identical instructions.",
+   note="M8 (harness model of the label grammar and of case selection) trusted; flag sets that give one name to two bits can only be satisfied by rejection.",
+   technique="exhaustive enumeration of masks x flag configurations and bounded exhaustive enumeration of switch shapes against a reference model"),
+})
 pending = {}
 def main():
     try:
